@@ -1,6 +1,6 @@
 //! C14 — A sips: target is never sent in clear; target and transport selection are sound
 //!
-//! Six sub-checks share one scenario executor and one oracle walk:
+//! Seven sub-checks share one scenario executor and one oracle walk:
 //!
 //! * `config` — the finite configuration space, enumerated exhaustively (one request per configuration,
 //!   target URI built through the `SipUri` builder API);
@@ -11,6 +11,17 @@
 //!   part (none, user, user:password) x host (IPv4, IPv6 lower/upper case hex) x port x uri/header
 //!   parameters that say nothing about the transport x 8 endpoint configurations. The reference never sees
 //!   the text: the text is rendered from the generated (sips, ip, port) triple;
+//! * `uri-param` — the target URI carries a uri-parameter that speaks about routing: `;transport=` {tcp, udp,
+//!   tls, TCP, sctp; thorough also Tls, UDP, ws} and / or `;maddr=` {a host of the URI host's address family, a
+//!   host of the other family}, written in front of or behind other uri-parameters, set through the builder
+//!   API (`uri_param_value`) or read from text by one of ezk's readers; enumerated over datagram sets x factory
+//!   {absent, connects, refuses}^2 x registration order x pre-existing connection x sip/sips x family x port.
+//!   The statement does not mention either parameter, so `ref_select::readings` admits every reading: the
+//!   parameter is ignored (what the pinned tree does) or honoured (`transport=` narrows the candidates to the
+//!   named transport - which may leave none, so a failure is accepted; `maddr=` replaces the host).  Under no
+//!   reading may a sips URI leave over a transport that does not report itself secure, and the port rule,
+//!   the datagram family rule and pin reuse hold per reading.  Route entries may carry `;transport=` too
+//!   (`route`, `sequence`);
 //! * `followup` — what the transaction emits AFTER the first transmission: the request is an INVITE or an
 //!   OPTIONS that is driven (`receive()` polled); virtual time passes (retransmissions over datagram
 //!   transports) and scripted responses (180, 486) are delivered to the endpoint over a chosen transport: the
@@ -58,7 +69,10 @@
 //! that retransmissions / the ACK use the transport of the first transmission when nothing was
 //! pinned by the caller (RFC 3261 17.1.1.3 says so, the C14 statement does not; only never-in-clear,
 //! destination, datagram family and pin reuse are checked per transmission); timing of retransmissions (C05);
-//! content of the ACK (C07); `transport=` / `maddr=` URI parameters (never generated); whether a valid URI
+//! content of the ACK (C07); whether a `transport=` / `maddr=` uri-parameter is honoured or ignored, how a
+//! honoured `transport=` value is matched against transport names, liveness / reuse of a connection that only
+//! some interpretation of the value admits (`Eligible::sure_*`); `maddr=` on Route entries (never generated);
+//! `transport=` / `maddr=` on a bare addr-spec Contact (they would be header parameters); whether a valid URI
 //! text is accepted is C01's subject (a rejected text is reported as `c14.uri/valid-text-rejected`).
 
 use crate::engine::*;
@@ -115,6 +129,49 @@ const V4_HOSTS: [&str; 2] = ["192.0.2.5", "192.0.2.6"];
 const V6_HOSTS: [&str; 2] = ["2001:db8::5", "::ffff:192.0.2.6"];
 /// listeners (bound address; index = secure*2 + v6)
 const LISTEN: [&str; 4] = ["10.0.0.1:5060", "[fd00::1]:5060", "10.0.0.1:5061", "[fd00::1]:5061"];
+
+/// values of a `;transport=` uri parameter (index 0 = the URI carries none); the reference only sees the class
+const TPARAMS: [(&str, Option<rs::TParam>); 9] = [
+    ("", None),
+    ("tcp", Some(rs::TParam::Tcp)),
+    ("udp", Some(rs::TParam::Udp)),
+    ("tls", Some(rs::TParam::Tls)),
+    ("TCP", Some(rs::TParam::Tcp)),
+    ("Tls", Some(rs::TParam::Tls)),
+    ("sctp", Some(rs::TParam::Other)),
+    ("UDP", Some(rs::TParam::Udp)),
+    ("ws", Some(rs::TParam::Other)),
+];
+/// hosts named by a `;maddr=` uri parameter [IPv4, IPv6]: different from every target / route host, so a request
+/// that went to the maddr is told apart by its destination
+const MADDR_HOSTS: [&str; 2] = ["192.0.2.99", "2001:db8::99"];
+
+fn tparam_idx(i: u8) -> usize {
+    (i as usize).min(TPARAMS.len() - 1)
+}
+
+/// the address a `;maddr=` selector names for a URI whose host is `host`: 0 none, 1 same family, 2 the other family
+fn maddr_ip(sel: u8, host: &IpAddr) -> Option<IpAddr> {
+    match sel % 3 {
+        0 => None,
+        1 => Some(MADDR_HOSTS[host.is_ipv6() as usize].parse().unwrap()),
+        _ => Some(MADDR_HOSTS[!host.is_ipv6() as usize].parse().unwrap()),
+    }
+}
+
+/// `;transport=..` / `;maddr=..` as uri-parameter text
+fn routing_params_text(tparam: u8, maddr: Option<IpAddr>) -> String {
+    let mut s = String::new();
+    if tparam_idx(tparam) != 0 {
+        s.push_str(&format!(";transport={}", TPARAMS[tparam_idx(tparam)].0));
+    }
+    match maddr {
+        Some(IpAddr::V4(a)) => s.push_str(&format!(";maddr={a}")),
+        Some(IpAddr::V6(a)) => s.push_str(&format!(";maddr=[{a}]")),
+        None => {}
+    }
+    s
+}
 
 fn host_ip(v6: bool, host: u8) -> IpAddr {
     let h = (host & 1) as usize;
@@ -187,6 +244,9 @@ pub struct RouteEntry {
     pub port: bool,
     /// 0 `<uri>`, 1 `"Proxy" <uri>;x=1` (display name + header parameter), 2 uri with a user part
     pub form: u8,
+    /// `;transport=` uri parameter of the entry: index into TPARAMS (0 = none)
+    #[serde(default)]
+    pub tparam: u8,
 }
 
 #[derive(Serialize, Deserialize, Clone, Debug, Hash, PartialEq, Eq, Default)]
@@ -209,6 +269,8 @@ fn route_target(e: &RouteEntry, ruri: &rs::Target) -> rs::Target {
             _ => ruri.ip,
         },
         port: if e.port { Some(5077) } else { None },
+        tparam: TPARAMS[tparam_idx(e.tparam)].1,
+        maddr: None,
     }
 }
 
@@ -219,10 +281,11 @@ fn route_text(e: &RouteEntry, ruri: &rs::Target) -> String {
         IpAddr::V6(a) => format!("[{a}]"),
     };
     let uri = format!(
-        "{}:{}{host}{}{}",
+        "{}:{}{host}{}{}{}",
         if e.sips { "sips" } else { "sip" },
         if e.form % 3 == 2 { "proxy@" } else { "" },
         t.port.map(|p| format!(":{p}")).unwrap_or_default(),
+        routing_params_text(e.tparam, None),
         if e.lr { ";lr" } else { "" },
     );
     if e.form % 3 == 1 {
@@ -264,9 +327,44 @@ pub struct UriForm {
     pub upper_hex: bool,
     /// index into URI_PARAMS (0 = none)
     pub params: u8,
+    /// `;transport=` uri parameter: index into TPARAMS (0 = none); never on `UriVia::ContactBare`
+    #[serde(default)]
+    pub tparam: u8,
+    /// `;maddr=` uri parameter: 0 none, 1 a host of the URI host's address family, 2 a host of the other family;
+    /// never on `UriVia::ContactBare`
+    #[serde(default)]
+    pub maddr: u8,
+    /// `transport=` / `maddr=` are written behind the other uri-parameters instead of in front of them
+    #[serde(default)]
+    pub routing_last: bool,
 }
 
-/// uri-parameters / headers that say nothing about transport or destination (no transport=, no maddr=)
+impl UriForm {
+    /// a bare addr-spec in Contact cannot carry uri-parameters (RFC 3261 20.10: they would be header parameters)
+    fn carries_routing_params(&self) -> bool {
+        self.via != UriVia::ContactBare
+    }
+    fn tparam_eff(&self) -> u8 {
+        if self.carries_routing_params() { tparam_idx(self.tparam) as u8 } else { 0 }
+    }
+    fn maddr_eff(&self) -> u8 {
+        if self.carries_routing_params() { self.maddr % 3 } else { 0 }
+    }
+}
+
+/// The generated target: (sips, ip, port) plus what the URI form makes it carry as `transport=` / `maddr=`
+fn target_of(sips: bool, ip: IpAddr, port: Option<u16>, f: &UriForm) -> rs::Target {
+    rs::Target {
+        sips,
+        ip,
+        port,
+        tparam: TPARAMS[f.tparam_eff() as usize].1,
+        maddr: maddr_ip(f.maddr_eff(), &ip),
+    }
+}
+
+/// uri-parameters / headers that say nothing about transport or destination (transport= / maddr= are drawn
+/// separately: `UriForm::tparam`, `UriForm::maddr`)
 const URI_PARAMS: [&str; 5] = ["", ";lr", ";user=phone;ttl=5", ";method=OPTIONS", "?subject=hi"];
 const SCHEMES: [[&str; 4]; 2] = [["sip", "SIP", "Sip", "sIp"], ["sips", "SIPS", "Sips", "sIPs"]];
 
@@ -298,7 +396,13 @@ fn uri_text(t: &rs::Target, f: &UriForm) -> String {
     };
     let port = t.port.map(|p| format!(":{p}")).unwrap_or_default();
     let params = URI_PARAMS[(f.params as usize).min(params_allowed(f.via) - 1)];
-    format!("{scheme}:{user}{host}{port}{params}")
+    let routing = routing_params_text(f.tparam_eff(), maddr_ip(f.maddr_eff(), &t.ip));
+    // uri-parameters precede the `?headers` part
+    if f.routing_last && !params.starts_with('?') {
+        format!("{scheme}:{user}{host}{port}{params}{routing}")
+    } else {
+        format!("{scheme}:{user}{host}{port}{routing}{params}")
+    }
 }
 
 // ------------------------------------------------------------------------------------------
@@ -495,11 +599,7 @@ macro_rules! open_out {
         let helper = Helper::<$s> {
             stream: Mutex::new(Some(stream)),
         };
-        let uri = make_uri(&rs::Target {
-            sips: $s,
-            ip: remote.ip(),
-            port: Some(remote.port()),
-        });
+        let uri = make_uri(&rs::Target::plain($s, remote.ip(), Some(remote.port())), &UriForm::default());
         let info = uri.info();
         let tp = Factory::create(&helper, $endpoint.clone(), &info, remote)
             .await
@@ -508,12 +608,21 @@ macro_rules! open_out {
     }};
 }
 
-fn make_uri(t: &rs::Target) -> SipUri {
+fn make_uri(t: &rs::Target, f: &UriForm) -> SipUri {
     let host = match t.ip {
         IpAddr::V4(a) => Host::IP4(a),
         IpAddr::V6(a) => Host::IP6(a),
     };
-    SipUri::new(HostPort { host, port: t.port }).sips(t.sips).user("bob".into())
+    let mut uri = SipUri::new(HostPort { host, port: t.port }).sips(t.sips).user("bob".into());
+    if f.tparam_eff() != 0 {
+        uri = uri.uri_param_value("transport", TPARAMS[f.tparam_eff() as usize].0);
+    }
+    match maddr_ip(f.maddr_eff(), &t.ip) {
+        Some(IpAddr::V4(a)) => uri = uri.uri_param_value("maddr", a.to_string()),
+        Some(IpAddr::V6(a)) => uri = uri.uri_param_value("maddr", format!("[{a}]")),
+        None => {}
+    }
+    uri
 }
 
 fn call_id(n: usize) -> String {
@@ -805,7 +914,7 @@ fn execute(sc: &Scenario, rng: u64) -> Result<Vec<StepObs>, String> {
             // ---- the URI object: built, or read by ezk from text rendered from the generated triple ----
             let text = uri_text(&step.target, &step.uri);
             let uri: Option<Box<dyn Uri>> = match step.uri.via {
-                UriVia::Built => Some(Box::new(make_uri(&step.target))),
+                UriVia::Built => Some(Box::new(make_uri(&step.target, &step.uri))),
                 UriVia::FromStr => text.parse::<SipUri>().ok().map(|u| Box::new(u) as Box<dyn Uri>),
                 UriVia::EndpointParse => endpoint.parse_uri(&text).ok(),
                 UriVia::RequestLine | UriVia::ContactAngle | UriVia::ContactBare => {
@@ -1298,11 +1407,57 @@ fn evaluate(sc: &Scenario, obs: &[StepObs], out: &mut CaseOut) -> Summary {
         }
 
         // ---- classes / non-triviality ----
-        let e = rs::eligible(&cfg, &step.target);
+        // (the reading that takes the Request-URI as it stands and ignores transport= / maddr=)
+        let e = rs::eligible(&cfg, &readings[0]);
         out.class(if step.target.sips { "uri:sips" } else { "uri:sip" });
         out.class(if step.target.ip.is_ipv6() { "host:ipv6-literal" } else { "host:ipv4-literal" });
         out.class(if step.target.port.is_some() { "port:explicit" } else { "port:default" });
         let mut nt = false;
+        if let Some(tp) = step.target.tparam {
+            out.class(match tp {
+                rs::TParam::Tcp => "uri-param:transport=tcp",
+                rs::TParam::Udp => "uri-param:transport=udp",
+                rs::TParam::Tls => "uri-param:transport=tls",
+                rs::TParam::Other => "uri-param:transport=<not configured: sctp, ws>",
+            });
+            if TPARAMS[step.uri.tparam_eff() as usize].0.chars().any(|c| c.is_ascii_uppercase()) {
+                out.class("uri-param:transport-value-not-lower-case");
+            }
+            if pin.is_none() {
+                let honoured = rs::Target {
+                    tparam: Some(tp),
+                    ..readings[0].clone()
+                };
+                let eh = rs::eligible(&cfg, &honoured);
+                if (&eh.dgrams, &eh.conns_held, &eh.conns_idle, &eh.factories)
+                    != (&e.dgrams, &e.conns_held, &e.conns_idle, &e.factories)
+                {
+                    out.class("nontrivial:transport-param-would-narrow-the-eligible-candidates");
+                    nt = true;
+                }
+                if !eh.may_succeed() && e.may_succeed() {
+                    out.class("uri-param:transport-names-nothing-eligible (failure and ignoring it both accepted)");
+                }
+                if step.target.sips && rs::insecure_candidate_named(&cfg, &honoured) {
+                    out.class("nontrivial:sips-with-transport-param-naming-an-insecure-candidate");
+                    nt = true;
+                }
+            }
+        }
+        if let Some(m) = step.target.maddr {
+            out.class(if m.is_ipv6() == step.target.ip.is_ipv6() {
+                "uri-param:maddr-in-the-host's-address-family"
+            } else {
+                "uri-param:maddr-in-the-other-address-family"
+            });
+            if pin.is_none() && step.target.sips && rs::insecure_candidate_present(&cfg) {
+                out.class("nontrivial:sips-with-maddr-and-insecure-candidate-present");
+                nt = true;
+            }
+        }
+        if step.hdrs.routes.first().map_or(false, |r| tparam_idx(r.tparam) != 0) {
+            out.class("route:topmost-entry-with-transport-param");
+        }
         if pin.is_none()
             && !step.hdrs.routes.is_empty()
             && readings.iter().any(|r| r.sips)
@@ -1396,10 +1551,11 @@ fn evaluate(sc: &Scenario, obs: &[StepObs], out: &mut CaseOut) -> Summary {
         }
         sum.nontrivial |= nt;
         notes.push(format!(
-            "#{n} {}:{}{} pin={} -> {} sent={:?} connects={:?}",
+            "#{n} {}:{}{}{} pin={} -> {} sent={:?} connects={:?}",
             if step.target.sips { "sips" } else { "sip" },
             step.target.ip,
             step.target.port.map(|p| format!(":{p}")).unwrap_or_default(),
+            routing_params_text(step.uri.tparam_eff(), step.target.maddr),
             pin.is_some(),
             if o.ok { "ok".to_string() } else { format!("ERR({})", o.err) },
             observation
@@ -1676,11 +1832,7 @@ pub fn config_cases(_tier: Tier) -> Vec<Case> {
 }
 
 fn lower_config(c: &Case) -> Scenario {
-    let target = rs::Target {
-        sips: c.sips,
-        ip: host_ip(c.v6, 0),
-        port: if c.port { Some(5099) } else { None },
-    };
+    let target = rs::Target::plain(c.sips, host_ip(c.v6, 0), if c.port { Some(5099) } else { None });
     // where the pre-existing connections point is derived from the statement's port rule
     let dest = rs::destination(&target);
     let ops = match c.pre {
@@ -1815,7 +1967,40 @@ pub struct SeqCase {
     pub rng: u8,
 }
 
+/// `;transport=` selector (index into TPARAMS): 12 in 17 none, else tcp / udp / tls / a transport nobody
+/// provides, lower case or not
+fn tparam_sel() -> impl Strategy<Value = u8> {
+    prop_oneof![
+        12 => Just(0u8),
+        2 => prop_oneof![Just(1u8), Just(4u8)],
+        1 => prop_oneof![Just(2u8), Just(7u8)],
+        1 => prop_oneof![Just(3u8), Just(5u8)],
+        1 => prop_oneof![Just(6u8), Just(8u8)],
+    ]
+}
+
 fn uri_form() -> impl Strategy<Value = UriForm> {
+    (
+        uri_form_base(),
+        tparam_sel(),
+        prop_oneof![14 => Just(0u8), 1 => Just(1u8), 1 => Just(2u8)],
+        any::<bool>(),
+    )
+        .prop_map(|(base, tparam, maddr, routing_last)| {
+            // keep the case canonical: a form that cannot carry the parameters gets none
+            let carries = base.carries_routing_params();
+            let tparam = if carries { tparam } else { 0 };
+            let maddr = if carries { maddr } else { 0 };
+            UriForm {
+                tparam,
+                maddr,
+                routing_last: routing_last && (tparam != 0 || maddr != 0),
+                ..base
+            }
+        })
+}
+
+fn uri_form_base() -> impl Strategy<Value = UriForm> {
     prop_oneof![
         2 => Just(UriForm::default()),
         3 => (
@@ -1838,6 +2023,7 @@ fn uri_form() -> impl Strategy<Value = UriForm> {
                 upper_hex,
                 // keep the case canonical: a reader that takes fewer parameter shapes gets "none"
                 params: if (params as usize) < params_allowed(via) { params } else { 0 },
+                ..UriForm::default()
             }),
     ]
 }
@@ -1873,13 +2059,15 @@ fn route_entry() -> impl Strategy<Value = RouteEntry> {
         prop_oneof![3 => Just(0u8), 1 => Just(1u8), 1 => Just(2u8)],
         prop_oneof![2 => Just(false), 1 => Just(true)],
         0u8..3,
+        prop_oneof![6 => Just(0u8), 1 => Just(1u8), 1 => Just(2u8), 1 => Just(3u8)],
     )
-        .prop_map(|(sips, lr, host, port, form)| RouteEntry {
+        .prop_map(|(sips, lr, host, port, form, tparam)| RouteEntry {
             sips,
             lr,
             host,
             port,
             form,
+            tparam,
         })
 }
 
@@ -1987,16 +2175,17 @@ fn lower_seq(c: &SeqCase) -> Scenario {
         .steps
         .iter()
         .map(|s| {
-            let target = rs::Target {
-                sips: s.sips,
-                ip: host_ip(s.v6, s.host),
-                port: match s.port {
+            let target = target_of(
+                s.sips,
+                host_ip(s.v6, s.host),
+                match s.port {
                     PortSel::Default => None,
                     PortSel::P5060 => Some(5060),
                     PortSel::P5061 => Some(5061),
                     PortSel::P5099 => Some(5099),
                 },
-            };
+                &s.uri,
+            );
             let mut ops = vec![];
             if let Some(sel) = s.release {
                 ops.push(Op::ReleaseSel(sel));
@@ -2111,6 +2300,7 @@ pub fn text_cases(tier: Tier) -> Vec<TextCase> {
                                             user,
                                             upper_hex: host == 2,
                                             params,
+                                            ..UriForm::default()
                                         },
                                         rng,
                                     });
@@ -2143,11 +2333,12 @@ pub fn check_text(case: &TextCase, out: &mut CaseOut) {
         steps: vec![Step {
             ops: vec![],
             fac_ok: [true, true],
-            target: rs::Target {
-                sips: case.sips,
-                ip: host_ip(case.host != 0, (case.host == 3) as u8),
-                port: if case.port { Some(5099) } else { None },
-            },
+            target: target_of(
+                case.sips,
+                host_ip(case.host != 0, (case.host == 3) as u8),
+                if case.port { Some(5099) } else { None },
+                &case.uri,
+            ),
             pin: StepPin::None,
             hold: false,
             uri: case.uri,
@@ -2157,6 +2348,132 @@ pub fn check_text(case: &TextCase, out: &mut CaseOut) {
             fault: false,
         }],
     };
+    run_and_judge(&sc, case.rng, case, out);
+}
+
+// ------------------------------------------------------------------------------------------
+// sub-check 3b: the target URI carries `;transport=` / `;maddr=` (exhaustive over configurations x values)
+
+#[derive(Serialize, Deserialize, Clone, Debug, Hash)]
+pub struct ParamCase {
+    pub dgrams: u8,
+    pub tcp: Fac,
+    pub tls: Fac,
+    pub tls_first: bool,
+    pub pre: Pre,
+    pub sips: bool,
+    pub v6: bool,
+    /// explicit port 5099
+    pub port: bool,
+    /// reader / spelling rotate with the case number; `tparam`, `maddr` are enumerated
+    pub uri: UriForm,
+    pub rng: u8,
+}
+
+const PARAM_VIAS: [UriVia; 5] = [
+    UriVia::Built,
+    UriVia::FromStr,
+    UriVia::EndpointParse,
+    UriVia::RequestLine,
+    UriVia::ContactAngle,
+];
+
+pub fn param_cases(tier: Tier) -> Vec<ParamCase> {
+    // datagram sets: none / UDP v4 / UDP both / secure v4 / secure both / all four (thorough: + mixed ones)
+    let dsets: &[u8] = match tier {
+        Tier::Quick => &[0b0000, 0b0001, 0b0011, 0b0100, 0b1100, 0b1111],
+        Tier::Thorough => &[0b0000, 0b0001, 0b0011, 0b0100, 0b1100, 0b1111, 0b0110, 0b1001, 0b0101, 0b1010],
+    };
+    let pres: &[Pre] = match tier {
+        Tier::Quick => &[Pre::None, Pre::OutInsecure, Pre::OutSecure],
+        Tier::Thorough => &[Pre::None, Pre::OutInsecure, Pre::OutSecure, Pre::OutOtherPort, Pre::Inbound],
+    };
+    // (transport= selector, maddr= selector)
+    let shapes: Vec<(u8, u8)> = match tier {
+        Tier::Quick => vec![(1, 0), (2, 0), (3, 0), (4, 0), (6, 0), (0, 1), (0, 2), (1, 1), (2, 2)],
+        Tier::Thorough => (1u8..TPARAMS.len() as u8)
+            .map(|t| (t, 0u8))
+            .chain([0u8, 1, 2, 3].into_iter().flat_map(|t| [(t, 1u8), (t, 2u8)]))
+            .collect(),
+    };
+    let mut v = vec![];
+    for &dgrams in dsets {
+        for tcp in FACS {
+            for tls in FACS {
+                let orders: &[bool] = if tcp != Fac::Absent && tls != Fac::Absent {
+                    &[false, true]
+                } else {
+                    &[false]
+                };
+                for &tls_first in orders {
+                    for &pre in pres {
+                        for sips in [false, true] {
+                            for v6 in [false, true] {
+                                for port in [false, true] {
+                                    for &(tparam, maddr) in &shapes {
+                                        // reader and spelling rotate (multiplicative hash of the case number, so
+                                        // they do not run in step with any of the loops above)
+                                        let h = (v.len() as u32).wrapping_mul(2_654_435_761);
+                                        let via = PARAM_VIAS[((h >> 9) % 5) as usize];
+                                        v.push(ParamCase {
+                                            dgrams,
+                                            tcp,
+                                            tls,
+                                            tls_first,
+                                            pre,
+                                            sips,
+                                            v6,
+                                            port,
+                                            uri: UriForm {
+                                                via,
+                                                scheme: if via == UriVia::Built { 0 } else { ((h >> 13) % 4) as u8 },
+                                                user: if via == UriVia::Built { 0 } else { ((h >> 17) % 3) as u8 },
+                                                upper_hex: false,
+                                                params: ((h >> 21) % params_allowed(via) as u32) as u8,
+                                                tparam,
+                                                maddr,
+                                                routing_last: (h >> 25) & 1 == 1,
+                                            },
+                                            rng: (v.len() % 5) as u8,
+                                        });
+                                    }
+                                }
+                            }
+                        }
+                    }
+                }
+            }
+        }
+    }
+    v
+}
+
+pub fn check_param(case: &ParamCase, out: &mut CaseOut) {
+    let config = Case {
+        dgrams: case.dgrams,
+        tcp: case.tcp,
+        tls: case.tls,
+        tls_first: case.tls_first,
+        pre: case.pre,
+        sips: case.sips,
+        v6: case.v6,
+        port: case.port,
+        pin: PinSel::Empty,
+        rng: case.rng,
+    };
+    // same lowering as `config` (the pre-existing connection points at the URI's host and port); only the URI differs
+    let mut sc = lower_config(&config);
+    let step = &mut sc.steps[0];
+    step.uri = case.uri;
+    step.target = target_of(step.target.sips, step.target.ip, step.target.port, &case.uri);
+    out.class(match case.pre {
+        Pre::None => "pre:none",
+        Pre::OutInsecure => "pre:insecure-outbound-to-destination",
+        Pre::OutSecure => "pre:secure-outbound-to-destination",
+        Pre::OutOtherPort => "pre:outbound-to-other-port",
+        Pre::OutOtherHost => "pre:outbound-to-other-host",
+        Pre::Inbound => "pre:inbound-from-destination",
+    });
     run_and_judge(&sc, case.rng, case, out);
 }
 
@@ -2253,11 +2570,7 @@ pub fn follow_cases(tier: Tier) -> Vec<FollowCase> {
 }
 
 pub fn check_follow(case: &FollowCase, out: &mut CaseOut) {
-    let target = rs::Target {
-        sips: case.sips,
-        ip: host_ip(case.v6, 0),
-        port: None,
-    };
+    let target = rs::Target::plain(case.sips, host_ip(case.v6, 0), None);
     let dest = rs::destination(&target);
     let ops = match case.pre {
         FuPre::None => vec![],
@@ -2358,9 +2671,20 @@ fn hdr_shapes() -> Vec<Hdrs> {
                         host,
                         port,
                         form: (firsts.len() % 3) as u8,
+                        tparam: 0,
                     });
                 }
             }
+        }
+    }
+    // the topmost entry names a transport (`;transport=tcp` / `;transport=udp`)
+    for first in firsts.iter().filter(|f| f.host != 1 && !f.port) {
+        for tparam in [1u8, 2] {
+            v.push(Hdrs {
+                routes: vec![RouteEntry { tparam, ..*first }],
+                one_line: false,
+                decoys: 0,
+            });
         }
     }
     for first in &firsts {
@@ -2379,6 +2703,7 @@ fn hdr_shapes() -> Vec<Hdrs> {
                     host: 0,
                     port: false,
                     form: 0,
+                    tparam: 0,
                 };
                 v.push(Hdrs {
                     routes: vec![*first, second],
@@ -2449,11 +2774,7 @@ pub fn check_hdr(case: &HdrCase, out: &mut CaseOut) {
         steps: vec![Step {
             ops: vec![],
             fac_ok: [true, true],
-            target: rs::Target {
-                sips: case.sips,
-                ip: host_ip(case.v6, 0),
-                port: None,
-            },
+            target: rs::Target::plain(case.sips, host_ip(case.v6, 0), None),
             pin: match case.pin {
                 PinSel::Empty => StepPin::None,
                 PinSel::Insecure => StepPin::External(0),
@@ -2554,11 +2875,7 @@ pub fn hist_cases(tier: Tier) -> Vec<HistCase> {
 }
 
 pub fn check_hist(case: &HistCase, out: &mut CaseOut) {
-    let target = rs::Target {
-        sips: case.sips,
-        ip: host_ip(case.v6, 0),
-        port: None,
-    };
+    let target = rs::Target::plain(case.sips, host_ip(case.v6, 0), None);
     let dest = rs::destination(&target);
     let mut requests: Vec<(bool, bool)> = vec![];
     if case.kind == PinKind::Populated {
@@ -2615,23 +2932,25 @@ pub fn property() -> Property {
     Property {
         fuzz: vec![],
         id: "C14",
-        rule: "config: every combination of {UDP/v4, UDP/v6, secure datagram/v4, secure datagram/v6} subsets x insecure factory {absent, connects, refuses} x secure factory {absent, connects, refuses} (both registration orders when both are present) x pre-existing connection {none, insecure outbound to the destination, secure outbound to the destination, secure outbound to the same host other port, secure outbound to another host, secure inbound from the destination} (all held by a TpHandle) x {sip, sips} x {IPv4, IPv6 literal} x {no port, :5099} x target info {empty, pinned to a secure / an insecure transport outside the configuration with a foreign destination}; one OPTIONS request per configuration, each in its own paused-clock world. uri-text: the target URI is text read by ezk before it becomes the request target - reader {SipUri::from_str, Endpoint::parse_uri, request line / Contact name-addr / Contact addr-spec of a received request} x scheme spelling {lower, UPPER, Capitalised, mIxed} x {sip, sips} x user part {none, user, user:password} x host {IPv4, IPv6 lower case hex, IPv6 upper case hex (thorough: + IPv4-mapped)} x {no port, :5099} x parameters {none, ;lr, ;user=phone;ttl=5, ;method=OPTIONS, ?subject=hi as far as the reader's grammar allows them} x 8 endpoint configurations (datagram sets {UDP both families, all four, none, secure both families} x factories {both, none}; thorough 30); the reference sees only the generated (sips, ip, port) triple the text was rendered from. followup: one driven request per case - datagram subsets x factories {none, both} x pre-existing connection {none, insecure outbound to the destination, secure outbound to the destination, insecure inbound from the destination} x {sip, sips} x {IPv4, IPv6} x target info {empty, secure pin, insecure pin} x script {OPTIONS polled 1.6 s, INVITE polled 1.6 s, INVITE answered 486 over V, INVITE answered 486 on the carrying transport and again over V 700 ms later from the peer's port + 1 (thorough: + 180, then 404 over V from port + 1)} with V over {the carrying transport, each configured datagram transport, the two transports outside the configuration, the pre-existing connection}; observed: every later request with the transaction's Call-ID (retransmissions, ACK, repeated ACK), its carrier and destination. sequence: 2..6 requests with varying URIs (2 hosts per family, ports default/5060/5061/5099) against one endpoint; transaction + target info of each request held or dropped at random, held ones released later, 40 s pauses expire unreferenced connections, kept target infos are re-used as pins, factories refuse per step, inbound connections from the destination appear. Observed: which mock's send() carried the request to which destination, which factory was asked to connect. Non-trivial = (sips target and at least one insecure candidate configured) or eligible candidates on at least two of the paths datagram / existing connection / factory; each step also draws the URI form (40 % built, 60 % one of the five text readers with random spelling), the method (40 % INVITE) and, for 25 % of the steps, a follow-up script of 1..3 events (wait 300/600/1100/2100 ms; 180 / 200 / 302 / 404 / 486 / 603 delivered over the carrying transport, a configured or foreign datagram transport or any open connection, datagram responses from the destination's port or port + 1). Non-trivial additionally: a request with later transmissions whose target is sips, whose transport was pinned, or whose non-2xx final arrived over another transport than the request left on. route: one request per case - datagram sets {none, UDP both families, secure both families, all four} x factories {none, both, insecure only, secure only} (thorough: 8 x 5) x Request-URI {sip, sips} x {IPv4, IPv6} x header shape {decoy Contact / To only (3); one Route entry: {sip, sips} x {;lr, strict} x host {IPv4 proxy, IPv6 proxy, Request-URI host} x {no port, :5077}, with and without decoys (48); two entries, second {sip, sips};lr, as two headers / one comma list (96)} x target info {empty, secure pin (thorough: + insecure pin)}; every third case an INVITE. pin-history: datagram sets {none, UDP+secure datagram IPv4, all four} x factories {none, both} (thorough 6 x 5) x target info {caller pins one of four transports outside the configuration (two of them report reliable()), caller pins an insecure / secure connection it opened to the destination, empty and filled in by a first successful request} x history of requests sent with the same target info object before the last one {none; OPTIONS whose send fails; INVITE whose send fails; OPTIONS ok, OPTIONS fails; OPTIONS fails, INVITE fails; INVITE ok; OPTIONS fails, OPTIONS ok} x last request {OPTIONS, INVITE} x {sip, sips} x {IPv4, IPv6}. sequence steps additionally draw: header shape (62 % no extra header, 25 % a route set of 1..2 random entries + random decoys, 13 % decoys only), send fault for the first transmission (1 in 6), target info {empty; 1 in 5 the object kept from an earlier held request, used in place; 1 in 11 of the rest an own pin: external transport 0..3 or the connection the caller opened}, 1 in 13 an outbound connection the caller opens to the destination first. Non-trivial additionally: a route set + a sips URI (Request-URI or topmost entry) with an insecure candidate configured; a pinned request sent with a target info that has seen a failed send. Distinct by hash of the case.",
+        rule: "config: every combination of {UDP/v4, UDP/v6, secure datagram/v4, secure datagram/v6} subsets x insecure factory {absent, connects, refuses} x secure factory {absent, connects, refuses} (both registration orders when both are present) x pre-existing connection {none, insecure outbound to the destination, secure outbound to the destination, secure outbound to the same host other port, secure outbound to another host, secure inbound from the destination} (all held by a TpHandle) x {sip, sips} x {IPv4, IPv6 literal} x {no port, :5099} x target info {empty, pinned to a secure / an insecure transport outside the configuration with a foreign destination}; one OPTIONS request per configuration, each in its own paused-clock world. uri-text: the target URI is text read by ezk before it becomes the request target - reader {SipUri::from_str, Endpoint::parse_uri, request line / Contact name-addr / Contact addr-spec of a received request} x scheme spelling {lower, UPPER, Capitalised, mIxed} x {sip, sips} x user part {none, user, user:password} x host {IPv4, IPv6 lower case hex, IPv6 upper case hex (thorough: + IPv4-mapped)} x {no port, :5099} x parameters {none, ;lr, ;user=phone;ttl=5, ;method=OPTIONS, ?subject=hi as far as the reader's grammar allows them} x 8 endpoint configurations (datagram sets {UDP both families, all four, none, secure both families} x factories {both, none}; thorough 30); the reference sees only the generated (sips, ip, port) triple the text was rendered from. uri-param: the target URI carries ;transport= and / or ;maddr= - datagram sets {none, UDP/v4, UDP both, secure/v4, secure both, all four (thorough: + 4 mixed)} x insecure factory {absent, connects, refuses} x secure factory {absent, connects, refuses} (both registration orders) x pre-existing connection {none, insecure outbound to the destination, secure outbound to the destination (thorough: + secure outbound to the other port, secure inbound from the destination)} x {sip, sips} x {IPv4, IPv6} x {no port, :5099} x parameter shape {transport=tcp, udp, tls, TCP, sctp; maddr=host of the same family, of the other family; transport=tcp + maddr same family; transport=udp + maddr other family (thorough: all 8 transport values; maddr x {none, tcp, udp, tls})}; the reader {builder API, SipUri::from_str, Endpoint::parse_uri, received request line, received Contact name-addr}, scheme spelling, user part, other uri-parameters and the position of the routing parameters among them rotate with a multiplicative hash of the case number. Non-trivial additionally: honouring the transport= value would change the set of eligible candidates; a sips URI whose transport= value names an insecure candidate that is configured and would connect / is bound to the right family; a sips URI with maddr= and an insecure candidate present. followup: one driven request per case - datagram subsets x factories {none, both} x pre-existing connection {none, insecure outbound to the destination, secure outbound to the destination, insecure inbound from the destination} x {sip, sips} x {IPv4, IPv6} x target info {empty, secure pin, insecure pin} x script {OPTIONS polled 1.6 s, INVITE polled 1.6 s, INVITE answered 486 over V, INVITE answered 486 on the carrying transport and again over V 700 ms later from the peer's port + 1 (thorough: + 180, then 404 over V from port + 1)} with V over {the carrying transport, each configured datagram transport, the two transports outside the configuration, the pre-existing connection}; observed: every later request with the transaction's Call-ID (retransmissions, ACK, repeated ACK), its carrier and destination. sequence: 2..6 requests with varying URIs (2 hosts per family, ports default/5060/5061/5099) against one endpoint; transaction + target info of each request held or dropped at random, held ones released later, 40 s pauses expire unreferenced connections, kept target infos are re-used as pins, factories refuse per step, inbound connections from the destination appear. Observed: which mock's send() carried the request to which destination, which factory was asked to connect. Non-trivial = (sips target and at least one insecure candidate configured) or eligible candidates on at least two of the paths datagram / existing connection / factory; each step also draws the URI form (40 % built, 60 % one of the five text readers with random spelling; 5 in 17 with ;transport= {tcp/TCP 2, udp/UDP 1, tls/Tls 1, sctp/ws 1}, 1 in 8 with ;maddr= of the same / the other family, in front of or behind the other uri-parameters; never on a bare addr-spec Contact), the method (40 % INVITE) and, for 25 % of the steps, a follow-up script of 1..3 events (wait 300/600/1100/2100 ms; 180 / 200 / 302 / 404 / 486 / 603 delivered over the carrying transport, a configured or foreign datagram transport or any open connection, datagram responses from the destination's port or port + 1). Non-trivial additionally: a request with later transmissions whose target is sips, whose transport was pinned, or whose non-2xx final arrived over another transport than the request left on. route: one request per case - datagram sets {none, UDP both families, secure both families, all four} x factories {none, both, insecure only, secure only} (thorough: 8 x 5) x Request-URI {sip, sips} x {IPv4, IPv6} x header shape {decoy Contact / To only (3); one Route entry: {sip, sips} x {;lr, strict} x host {IPv4 proxy, IPv6 proxy, Request-URI host} x {no port, :5077}, with and without decoys (48); two entries, second {sip, sips};lr, as two headers / one comma list (96); one entry with ;transport={tcp, udp}: {sip, sips} x {;lr, strict} x host {IPv4 proxy, Request-URI host} (16)} x target info {empty, secure pin (thorough: + insecure pin)}; every third case an INVITE. pin-history: datagram sets {none, UDP+secure datagram IPv4, all four} x factories {none, both} (thorough 6 x 5) x target info {caller pins one of four transports outside the configuration (two of them report reliable()), caller pins an insecure / secure connection it opened to the destination, empty and filled in by a first successful request} x history of requests sent with the same target info object before the last one {none; OPTIONS whose send fails; INVITE whose send fails; OPTIONS ok, OPTIONS fails; OPTIONS fails, INVITE fails; INVITE ok; OPTIONS fails, OPTIONS ok} x last request {OPTIONS, INVITE} x {sip, sips} x {IPv4, IPv6}. sequence steps additionally draw: header shape (62 % no extra header, 25 % a route set of 1..2 random entries (1 in 3 with ;transport= tcp / udp / tls) + random decoys, 13 % decoys only), send fault for the first transmission (1 in 6), target info {empty; 1 in 5 the object kept from an earlier held request, used in place; 1 in 11 of the rest an own pin: external transport 0..3 or the connection the caller opened}, 1 in 13 an outbound connection the caller opens to the destination first. Non-trivial additionally: a route set + a sips URI (Request-URI or topmost entry) with an insecure candidate configured; a pinned request sent with a target info that has seen a failed send. Distinct by hash of the case.",
         assumptions: vec![
-            "IP-literal targets only (no DNS: the resolver has no name servers); no transport= / maddr= URI parameter; mock streams stand in for TCP/TLS (no handshake)",
-            "the URI scheme is case-insensitive (RFC 3261 19.1.1, RFC 3986 3.1): SIPS: / Sips: name a sips target; user part, password, IPv6 hex case and uri/header parameters other than transport/maddr do not influence destination or transport",
+            "IP-literal targets only (no DNS: the resolver has no name servers); mock streams stand in for TCP/TLS (no handshake); maddr= values are IP literals",
+            "a ;transport= / ;maddr= uri-parameter on the target URI (or ;transport= on the topmost Route entry): the statement mentions neither, so ignoring it (the pinned tree) and honouring it (RFC 3261 19.1.1, RFC 3263 4.1: transport= narrows the candidates to the named transport, maddr= replaces the host as the address to contact) are both accepted, per parameter; an observation clean under any reading is accepted. How a honouring stack matches names is open too (exact name; TLS also answers to tcp = ezk's documented matches_transport_param; tcp on a sips URI means TLS): membership is judged with the candidates that match under some interpretation (udp: any datagram transport; tcp: any stream factory / connection; tls: secure streams; sctp / ws: nothing), liveness and the reuse preference with those that match under every interpretation (udp: insecure datagram; tcp: TCP, and TLS for a sips URI; tls: TLS). Under no reading does a sips URI leave over a transport that does not report itself secure",
+            "the URI scheme is case-insensitive (RFC 3261 19.1.1, RFC 3986 3.1): SIPS: / Sips: name a sips target; user part, password, IPv6 hex case and uri/header parameters other than transport/maddr do not influence destination or transport; the transport= value is case-insensitive (RFC 3261 19.1.4)",
             "retransmissions of a request and the ACK an INVITE client transaction builds for a 3xx-6xx are requests to the same URI: never-in-clear, destination/port, datagram family and reuse of a caller-pinned transport + destination are asserted for each of them; that they use the carrier of the first transmission when nothing was pinned is NOT asserted (the statement is silent, RFC 3261 17.1.1.3 is C07's neighbourhood)",
             "a response is matched to its transaction by branch and method only, so it may reach the endpoint over any transport (other datagram socket of a multi-homed host, another connection, an attacker's clear-text packet); which transport delivered it must not influence where the ACK goes",
             "Transports.transports is a HashMap: with several eligible candidates membership in the admissible set is asserted, plus the stated preference 'live outgoing connection before a new one'; datagram-vs-connection and datagram-vs-factory preference is not asserted",
             "a connection is 'live' (reuse demanded) while the application holds a handle to it; an open but unreferenced connection may be reused or replaced; whether a connection is still open is read from the peer end (EOF), its 32 s lifetime is C15's subject",
             "sips target + target info pinned to an insecure transport: the statement's 'pinned is reused' and 'never in clear' collide; verbatim use and refusal are both accepted",
             "connect attempts towards a factory that is not eligible are not asserted as long as nothing is sent over the result",
-            "a request with a pre-loaded Route header: 'the target' may be read as the Request-URI (what the pinned tree does: Route headers do not influence selection) or as the topmost Route entry (RFC 3261 8.1.2 next hop; sips if the entry or the Request-URI is sips; port = the entry's port, else the default of the effective scheme, for a sip: entry behind a sips Request-URI also 5060); an observation clean under any reading is accepted, so a sips Request-URI is never allowed over an insecure transport and a sip Request-URI behind a sips entry may go in clear to the Request-URI only; Route entries are IP literals without transport= / maddr=; Contact / To URIs never influence the next hop",
+            "a request with a pre-loaded Route header: 'the target' may be read as the Request-URI (what the pinned tree does: Route headers do not influence selection) or as the topmost Route entry (RFC 3261 8.1.2 next hop; sips if the entry or the Request-URI is sips; port = the entry's port, else the default of the effective scheme, for a sip: entry behind a sips Request-URI also 5060); an observation clean under any reading is accepted, so a sips Request-URI is never allowed over an insecure transport and a sip Request-URI behind a sips entry may go in clear to the Request-URI only; Route entries are IP literals without maddr=, a ;transport= on the topmost entry is read like one on the target URI (ignored or honoured) under the readings that take the entry as next hop; Contact / To URIs never influence the next hop",
             "send faults are transient: the failing Transport::send call puts nothing on the wire and the transport (datagram mock, external mock reporting reliable(), mock connection) stays open and usable; a request whose send failed may fail; a target info belongs to the caller: what it pinned there (or what ezk stored for its first successful request) is what later requests sent with that object must use, whatever happened to requests in between",
         ],
-        explanation: "config (29952 configurations, both tiers), uri-text (23040 quick / 115200 thorough), followup (20736 quick / 59136 thorough), route (18816 quick / 70560 thorough) and pin-history (2352 quick / 11760 thorough) are exhaustive over their stated products; sequence is sampled (thorough-weighted)",
+        explanation: "config (29952 configurations, both tiers), uri-text (23040 quick / 115200 thorough), uri-param (16848 quick / 83200 thorough; reader and spelling rotate, everything else is a full product), followup (20736 quick / 59136 thorough), route (20864 quick / 78240 thorough) and pin-history (2352 quick / 11760 thorough) are exhaustive over their stated products; sequence is sampled (thorough-weighted)",
         subs: vec![
             enum_sub("config", config_cases, check_config),
             enum_sub("uri-text", text_cases, check_text),
+            enum_sub("uri-param", param_cases, check_param),
             enum_sub("followup", follow_cases, check_follow),
             enum_sub("route", hdr_cases, check_hdr),
             enum_sub("pin-history", hist_cases, check_hist),
